@@ -43,6 +43,11 @@ func genC07(rt *rapid.T) rulegen.Spec {
 			}
 			return rulegen.GenWatchShaped(rt, o, "path", p)
 		}
+		if rapid.IntRange(0, 2).Draw(rt, "oddname") == 0 {
+			// any file name is a file name: glob characters, shell characters, a leading dash (such a path does not
+			// exist, so it is a non-directory)
+			return rulegen.GenWatchShaped(rt, o, "path", filepath.Join(scratchDir, rulegen.StrictName(rt, "oddname")))
+		}
 		return rulegen.GenWatchShaped(rt, o, "path", rapid.SampledFrom([]string{filepath.Join(scratchDir, "link-to-file"), scratchFile,
 			filepath.Join(scratchDir, "link-to-nothing"), filepath.Join(scratchDir, "missing")}).Draw(rt, "nondir"))
 	}
